@@ -390,7 +390,16 @@ func (x *c04Run) commitAndClaim() (tree *Tree, version byte, bhash []byte) {
 				rb = e1.BK.GetBalance(e1.Ctx, rcvAddr, lf.W.Denom).Amount.BigInt()
 			}
 			eb = e1.BK.GetBalance(e1.Ctx, escrow, lf.W.Denom).Amount.BigInt()
-			res := x.l1(op)
+			var res ExecResult
+			if pass == 1 && len(x.leaves) > 8 && k%3 != 0 {
+				// a re-submission that the model does not replay (a rejected message has no effect, so
+				// the model's state stays aligned); the monitors below still judge it
+				op.Now, op.Height = x.now, x.height
+				res = e1.L1Exec(op)
+				x.rep.Hist("claim-pass2-monitor-only:" + okStr(res.OK))
+			} else {
+				res = x.l1(op)
+			}
 			x.rep.Hist(fmt.Sprintf("claim-pass%d:%s", pass+1, okStr(res.OK)))
 			ea := e1.BK.GetBalance(e1.Ctx, escrow, lf.W.Denom).Amount.BigInt()
 			step := len(x.c1.Ops) - 1
@@ -520,6 +529,15 @@ func genC04(seed uint64, tier string, outdir string) *Report {
 	rep.Rule = "a case is one two-chain run (real L1 deposits, faithful relay, real L2 withdrawals and refunds, one honest output, every leaf claimed twice); distinct by hash of both op lists; non-trivial = at least one claim paid and at least one operation rejected"
 	var texts1, texts2 []string
 	id := 0
+	{ // assumption of C04_recorded_fields: the address codecs reject the empty string
+		p := newC04Run(rep, seed, 0, 0, 2, false)
+		if _, ok := p.e1.Resolve(""); ok {
+			p.viol(0, "C04:codec-accepts-empty", "the L1 address codec accepts the empty string")
+		}
+		if _, ok := p.sc.Env.Resolve(""); ok {
+			p.viol(0, "C04:codec-accepts-empty", "the L2 address codec accepts the empty string")
+		}
+	}
 	finish := func(x *c04Run) {
 		tree, _, _ := x.commitAndClaim()
 		rep.Ops += len(x.c1.Ops) + len(x.sc.Case.Ops)
@@ -600,7 +618,7 @@ func genC04(seed uint64, tier string, outdir string) *Report {
 	}
 	rep.Exhaustive = true
 	rep.Notes = append(rep.Notes, fmt.Sprintf("every tree size 1..%d, every position claimed (and re-submitted); boundary amounts 1, 2^63-1, 2^63, 2^64-1 claimed; 2^64, 2^64+1, 2^128, -1 rejected at both entry points", maxN))
-	writeShards(outdir, "C04", c04CaseHeader, "run_c04case", "c04case", texts1, 6, rep)
+	writeShards(outdir, "C04", c04CaseHeader, "run_c04case", "c04case", texts1, 8, rep)
 	writeShards(outdir, "C04L2", l2CaseHeader, "run_l2case", "l2case", texts2, 2, rep)
 	return rep
 }
